@@ -94,7 +94,7 @@ ADD = {
  "C10": (" The exhaustive alphabet has 18 bytes (incl. EF BF BD: a validly encoded U+FFFD); boundary runes, surrogates, overlong and truncated forms and random mixtures of valid runes with stray bytes are passed in as data; map scenarios include a NaN key (not equal to itself) in the initial population; the integer iterator is also driven with uint8 / int64 / named integer types and called 300 times past its end.", ""),
  "C11": (" Besides F_ctlx the tool also compiles every program of F_range (incl. sequences of loops over array values, named operand types, a typed constant operand), F_scope, F_yf, F_xf, F_expr and F_jump at a smaller bound; the F_expr packages additionally declare generators of slice / map / func / any / error / struct / pointer / channel / Iter[int] (generator of generators) / type-parameter element types.",
          " Thorough: same sizes, every 2nd program under each other configuration."),
- "C12": (" Further constructs: a parenthesised yield statement, yield in the initialiser of an else-if, labelled range loop, defer / break / continue inside a range loop the rewriter leaves native, break inside a yield-free select; negative controls clo-lrange, clo-selbrk.", ""),
+ "C12": (" Further constructs: a parenthesised yield statement, yield in the initialiser of an else-if, labelled range loop, defer inside a loop without any yield, defer / break / continue inside a range loop the rewriter leaves native, break inside a yield-free select; negative controls clo-lrange, clo-selbrk.", ""),
  "C13": (" Wrappers of eta shape whose type differs from the callee's (implicitly instantiated generic, unnamed or variadic parameters, result converted to an interface, permuted / repeated arguments), a //go:embed directive next to a generator literal, and a package-level function variable declared in an ordinary (unprocessed) file of the package are part of the bystander packages.", ""),
  "C14": (" Two further families of MC_Src: F_indep (ONE generator holding a local iterator, delegates and a second iterator created in a later step; hand pulls also after exhaustion) and F_gg (generators of GENERATORS consumed by the flattening round-robin consumer GGStep of CoSource.tla = rt.GGIt, which keeps every delivered handle and advances exhausted ones again in every cycle).", ""),
  "C15": (" Plus a hand-written dependency scenario (a closure over a generator of a sub-package of the same run; three runs on unchanged sources must give the same bytes) validated by the same trace specification.", ""),
